@@ -135,7 +135,10 @@ def md_request(owner, sid, items):
 
 def error_norm(e):
   """Maps an exception raised by a servicer / stub call to the model classes."""
-  c = svc.error_class(e)
+  if isinstance(e, FakeAbort):
+    c = 'rpc:' + getattr(e.grpc_code, 'name', str(e.grpc_code))
+  else:
+    c = svc.error_class(e)
   table = {
       'rpc:NOT_FOUND': sm.NOT_FOUND, 'NotFoundError': sm.NOT_FOUND,
       'rpc:FAILED_PRECONDITION': sm.FAILED_PRECONDITION,
@@ -162,6 +165,67 @@ def _scrub(*msgs):
       m.Clear()
     except Exception:  # pylint: disable=broad-except
       pass
+
+
+class FakeAbort(Exception):
+  """Raised by FakeContext.abort, like grpc's ServicerContext.abort."""
+
+  def __init__(self, code):
+    super().__init__(str(code))
+    self.grpc_code = code
+
+
+class FakeContext:
+  """Stand-in for grpc.ServicerContext: exercises the 'served over gRPC'
+  branches of the servicer (context is not None) without sockets."""
+
+  def __init__(self):
+    self._code = None
+    self._details = None
+
+  def set_code(self, code):
+    self._code = code
+
+  def set_details(self, details):
+    self._details = details
+
+  def code(self):
+    return self._code
+
+  def details(self):
+    return self._details
+
+  def abort(self, code, details):
+    self._code, self._details = code, details
+    raise FakeAbort(code)
+
+
+class _WithContext:
+  """Calls every RPC of the wrapped servicer with a fresh FakeContext; a call
+  that returns normally although an error status was set is turned into that
+  error (the status is what a remote client would see)."""
+
+  def __init__(self, servicer):
+    self._s = servicer
+    self.silent_error_returns = 0
+
+  def __getattr__(self, name):
+    attr = getattr(self._s, name)
+    if not callable(attr) or not name[:1].isupper():
+      return attr
+
+    def call(request):
+      ctx = FakeContext()
+      result = attr(request, ctx)
+      if ctx.code() is not None:
+        self.silent_error_returns += 1
+        raise FakeAbort(ctx.code())
+      return result
+    return call
+
+
+def with_context(servicer):
+  return _WithContext(servicer)
 
 
 def exec_real(s, op, scribble=True):
